@@ -11,17 +11,22 @@ ERRNO = {"EIO": 5, "ENOSPC": 28, "EACCES": 13, "EXDEV": 18, "EROFS": 30, "EMFILE
 class Project:
     """A small project description that can be materialised into any Box."""
 
-    def __init__(self, files, structured=False, use_cache=None, lock=None, extra=None, label=""):
+    def __init__(self, files, structured=False, use_cache=None, lock=None, extra=None, label="", hardlinks=None):
         self.files = files            # rel -> bytes (in scope, .rs below src/)
         self.structured = structured
         self.use_cache = use_cache
         self.lock = lock              # text or None
         self.extra = extra or {"README.md": b"# project\ninfo!(\"not source\")\n", "src/notes.txt": b"notes info!(\"x\")\n"}
         self.label = label
+        self.hardlinks = hardlinks or {}   # source rel -> second name (outside source_dir) of the same inode
 
     def materialise(self, box):
         for rel, d in self.files.items():
             box.write(rel, d)
+        for rel, other in self.hardlinks.items():
+            o = os.path.join(box.proj, other)
+            os.makedirs(os.path.dirname(o), exist_ok=True)
+            os.link(os.path.join(box.proj, rel), o)
         for rel, d in self.extra.items():
             box.write(rel, d)
         cfg = box.write("Breadlog.yaml", core.make_config(structured=True if self.structured else None, use_cache=self.use_cache))
@@ -174,6 +179,13 @@ def post_state(proj, box, expected_offsets):
 
 def others_changed(proj, box):
     bad = []
+    for rel, other in proj.hardlinks.items():
+        # the second name lies outside the source directory: it must keep the original bytes whatever happens to the first
+        try:
+            if box.read(other) != proj.files[rel]:
+                bad.append(other + " (second hard link of %s)" % rel)
+        except OSError:
+            bad.append(other + " (missing)")
     for rel, d in proj.extra.items():
         try:
             if box.read(rel) != d:
